@@ -41,6 +41,15 @@ CHECKS = {
             'Trusted: harness/optics.py (JSON<->lentil objects, ring->complex128). Supports whose bounding box is one sample are '
             'excluded (one-element fields are infinite constants in lentil, recorded under C06/C07).',
             'exact Fraunhofer oracle in TLA+ evaluated by TLC, programs replayed into lentil'),
+    'C03': ('model_checking',
+            'Optics.tla represents a segmented plane as one beam per segment; TLC checks in the ring that the sum of separately '
+            'propagated beams is identical to the propagation of the whole (ThmSegments) and evaluates every scenario exactly. '
+            'Scenarios (random supports, all partitions reachable through restricted-growth strings incl. interleaved samples / '
+            'overlapping bounding boxes, optional second segmented plane) run on lentil as 3-D mask, flattened 2-D mask and '
+            'whole-array processing; field and intensity of each are compared with the exact values.',
+            'DESIGN.md 5 C03',
+            'Trusted: harness/optics.py. One-sample segments are a recorded known finding.',
+            'exact coherent-sum oracle in TLA+ (TLC), three lentil descriptions per scenario'),
     'C04': ('model_checking',
             'Same specification; tilt elements (angular, first-order dispersive) are folded into a displacement in output samples '
             'with exact rationals, fit_tilt is specified through a least-squares precondition that TLC checks (FitPre), and the shift '
